@@ -1,11 +1,19 @@
 import NanoVerif.Model.Proto
 import NanoVerif.Model.Wire
+import NanoVerif.Model.WireStream
 /-!
   driver family `codec` (C15): byte strings travel as `x<hex>`; `#` ends the part of the line the model looks at.
 
   * `codec obj <fmt…> <S> # …`                      → `ok <re-encoding of the decoded value> 1 1 <nacc> <accepted prefix lengths…> <dump>`
   * `codec corrupt tensor <type> <rank> <S> <mode> [<mask>] # …` → `ok <hdrlen> <nacc> {<pos> <val> <dump>}…`
   * `codec read <fmt…> <S> # …`                     → `ok <dump>` | `reject`
+  * `codec into <fmt…> <S> # …`                     → `ok <re-encoding> 1 <nacc> <accepted prefix lengths…> <dump>`: the value a read
+                                                      produces does not depend on what the destination held (the dirty stream is
+                                                      not even looked at)
+  * `codec scalar <type> <value> #`                 → `ok <bytes> <hash_combine(0, value)> <sizeof> 1 <stream of the one-element tensor>`
+
+  The formats `string` / `strings` and the tensor formats are decoded by the procedures AS CODED (`Model/WireStream.lean`:
+  `rdString`, `rdVec rdString`, `rdTensor`), every other format by its codec; `Proofs/CodecStream.lean` proves the two agree.
 -/
 namespace NanoVerif.Driver.Codec
 open NanoVerif.Proto NanoVerif.Codec
@@ -94,7 +102,7 @@ def dumpGBoost (g : GBoost) : String :=
 
 inductive Fmt
   | tensor (k : Scalar) (rank : Nat)
-  | param | configurable | feature
+  | param | configurable | feature | string | strings
   | factory (isLinear : Bool) (ids : List Bytes)
   | wlearner | gboost
 
@@ -113,20 +121,34 @@ def pFmt : P Fmt
   | "param" :: ts => some (.param, ts)
   | "configurable" :: ts => some (.configurable, ts)
   | "feature" :: ts => some (.feature, ts)
+  | "string" :: ts => some (.string, ts)
+  | "strings" :: ts => some (.strings, ts)
   | "wlearner" :: ts => some (.wlearner, ts)
   | "gboost" :: ts => some (.gboost, ts)
   | "factory" :: which :: ts => do
-    guard (which ∈ ["solver", "loss", "splitter", "tuner", "lsearch0", "lsearchk", "linear"])
+    guard (which ∈ ["solver", "loss", "splitter", "tuner", "lsearch0", "lsearchk", "linear", "datasource"])
     let (ids, ts) ← pList pStr ts
     pure (.factory (which == "linear") (ids.map asciiBytes), ts)
   | _ => none
+
+/-- run a reader as coded on a good stream over `bs`: the value if the stream is still good afterwards -/
+def runReader {α : Type} (R : Stream.Reader α) (bs : Bytes) : Option α :=
+  match R ⟨bs, true⟩ with
+  | .val x s => if s.ok then some x else none
+  | .throw => none
+
+def dumpStrings (l : List Bytes) : String := join (["STRS", toString l.length] ++ l.map hexOfBytes)
 
 /-- decode; on success the dump of the value and its re-encoding -/
 def decode (f : Fmt) (bs : Bytes) : Option (String × Bytes) :=
   let go {α : Type} (c : Codec α) (d : α → String) : Option (String × Bytes) :=
     (c.dec bs).map (fun r => (d r.1, c.enc r.1))
+  let run {α : Type} (R : Stream.Reader α) (c : Codec α) (d : α → String) : Option (String × Bytes) :=
+    (runReader R bs).map (fun x => (d x, c.enc x))
   match f with
-  | .tensor k r => go (tensor k r) dumpTensor
+  | .tensor k r => run (Stream.rdTensor k r) (tensor k r) dumpTensor
+  | .string => run Stream.rdString str (fun v => join ["STR", hexOfBytes v])
+  | .strings => run (Stream.rdVec Stream.rdString) (vec str) dumpStrings
   | .param => go parameter dumpParam
   | .configurable => go configurable dumpConfig
   | .feature => go feature dumpFeature
@@ -138,7 +160,9 @@ def decode (f : Fmt) (bs : Bytes) : Option (String × Bytes) :=
 /-- is the byte string accepted? -/
 def accepts (f : Fmt) (bs : Bytes) : Bool :=
   match f with
-  | .tensor k r => ((tensor k r).dec bs).isSome
+  | .tensor k r => (runReader (Stream.rdTensor k r) bs).isSome
+  | .string => (runReader Stream.rdString bs).isSome
+  | .strings => (runReader (Stream.rdVec Stream.rdString) bs).isSome
   | .param => (parameter.dec bs).isSome
   | .configurable => (configurable.dec bs).isSome
   | .feature => (feature.dec bs).isSome
@@ -182,6 +206,27 @@ def handle : Toks → Option String
         | some (t, _) => some (join [toString p, toString v.toNat, dumpTensor t])
         | none => none))
     pure (join (["ok", toString (4 + 4 + 4 * r + 4 + 8), toString hits.length] ++ hits))
+  | "into" :: ts => do
+    let (f, ts) ← pFmt ts
+    let (s, ts) ← pBytes ts
+    guard (ts.head? = some "#")
+    match decode f s with
+    | none => pure "reject-full"
+    | some (dump, re) =>
+      let acc := acceptedPrefixes f s
+      pure (join (["ok", hexOfBytes re, "1", toString acc.length] ++ acc.map toString ++ [dump]))
+  | "scalar" :: ts => do
+    let (k, ts) ← pScalar ts
+    let (tok, ts) ← pStr ts
+    guard (ts.isEmpty || ts.head? = some "#")
+    let isFloat := k == .f32 || k == .f64
+    let bytes ← (if isFloat then (hexNat tok).bind (fun n => if n < 256 ^ k.size then some ((uintLE k.size).enc n) else none)
+      else if k.signed then
+        (pInt [tok]).bind (fun r => if -((256 ^ k.size / 2 : Nat) : Int) ≤ r.1 ∧ r.1 < ((256 ^ k.size / 2 : Nat) : Int)
+          then some ((intLE k.size).enc r.1) else none)
+      else (pNat [tok]).bind (fun r => if r.1 < 256 ^ k.size then some ((uintLE k.size).enc r.1) else none))
+    let h := NanoVerif.Gen.CodecConsts.hashCombine 0 (elemHash k bytes)
+    pure (join ["ok", hexOfBytes bytes, bits h.toNat, toString k.size, "1", hexOfBytes ((tensor k 1).enc ⟨[1], bytes⟩)])
   | "read" :: ts => do
     let (f, ts) ← pFmt ts
     let (s, ts) ← pBytes ts
